@@ -343,6 +343,9 @@ def curated():
     add(("let_done", LV, "justv"))
     add(("finally", L, LV))
     add(("finally", LV, LV))
+    add(("finally", L, "justv"))
+    add(("finally", L, ("just_void_or_done", A(1))))
+    add(("then", ("finally", L, "justv")))
     add(("sequence", LV, L))
     add(("sequence", LV, LV, L))
     add(("sequence", "justv", L))
